@@ -333,4 +333,303 @@ theorem bi_newState (cfg : Cfg) (hs : cfg.hasStates = true) (hr : BusyRules cfg.
   · exact ok1
   · exact ok2
 
+/-! ### user functions and `_cleanup` -/
+
+theorem bi_applyOutcome (cfg : Cfg) (hs : cfg.hasStates = true) (hr : BusyRules cfg.rules) {σ : SM} (o : Outcome)
+    (h : BI idle cfg.rules tk σ) (hq : ∀ q ∈ o.posts, busyReq cfg.rules q) (hsf : σ.statefunc.isSome = true) :
+    BI idle cfg.rules tk (applyOutcome cfg σ o) ∧ (applyOutcome cfg σ o).statefunc = σ.statefunc := by
+  obtain ⟨h1, e1⟩ := bi_requests cfg hs hr o.posts h hq
+  unfold applyOutcome
+  generalize requests cfg σ o.posts = τ at h1 e1 ⊢
+  have hsf1 : τ.statefunc.isSome = true := by rw [e1]; exact hsf
+  cases hf : o.fin with
+  | none =>
+    simp only [applyFin]
+    exact ⟨bi_neutral (e := .ret o.ret none) rfl rfl rfl rfl rfl rfl h1, e1⟩
+  | some st =>
+    simp only [applyFin]
+    have hg := h1.good
+    refine ⟨⟨?_, ?_, ?_, ?_, ?_, ?_, ?_, ?_⟩, e1⟩ <;>
+      simp only [SM.log, ob, observe_snoc, Obs.step, always_snoc, eng]
+    · exact ⟨hg, by simp [okB, okBusy, okFinal]⟩
+    · exact h1.cur
+    · exact h1.pending
+    · exact h1.taken
+    · exact h1.requesting
+    · intro he; exact h1.busy he
+    · intro he; simp [hsf1] at he
+
+theorem bi_doCleanup (cfg : Cfg) (hs : cfg.hasStates = true) (hr : BusyRules cfg.rules) (P : Prog)
+    (hP : BusyProg cfg.rules P) {σ : SM} (k : IKind) (h : BI idle cfg.rules tk σ) (hsf : σ.statefunc.isSome = true) :
+    BI idle cfg.rules tk (doCleanup cfg P σ k).σ ∧ (doCleanup cfg P σ k).σ.statefunc = σ.statefunc := by
+  have h1 : BI idle cfg.rules tk (setReason (σ.log (.interrupt k)) k) ∧
+      (setReason (σ.log (.interrupt k)) k).statefunc = σ.statefunc := by
+    have h0 : BI idle cfg.rules tk (σ.log (.interrupt k)) := bi_neutral (e := .interrupt k) rfl rfl rfl rfl rfl rfl h
+    unfold setReason
+    split
+    · exact ⟨bi_congr (σ := σ.log (.interrupt k)) rfl rfl rfl rfl rfl h0, rfl⟩
+    · exact ⟨h0, rfl⟩
+  unfold doCleanup
+  generalize setReason (σ.log (.interrupt k)) k = τ at h1 ⊢
+  obtain ⟨h1, e1⟩ := h1
+  simp only
+  split
+  · exact ⟨h1, e1⟩
+  · rename_i c _
+    have h2 : BI idle cfg.rules tk ({ τ with cleanup := none }.log (.cleanup c)) :=
+      bi_neutral (e := .cleanup c) (σ := τ) rfl rfl rfl rfl rfl rfl h1
+    obtain ⟨h3, e3⟩ := bi_applyOutcome cfg hs hr (P.clean ({ τ with cleanup := none }.log (.cleanup c)).trace c) h2
+      (hP.clean _ c) (by show τ.statefunc.isSome = true; rw [e1]; exact hsf)
+    exact ⟨h3, e3.trans e1⟩
+
+/-! ### the body of the inner loop -/
+
+def StepB (idle : Status) (r : Rules) : Step → Prop
+  | .ret τ => BI idle r none τ
+  | .brk τ => BI idle r none τ
+  | .cont τ => BI idle r none τ ∧ τ.statefunc.isSome = true
+
+theorem stepB_afterCleanup (cfg : Cfg) (hs : cfg.hasStates = true) (hr : BusyRules cfg.rules) (P : Prog)
+    (hP : BusyProg cfg.rules P) (c : CRes) (h : BI idle cfg.rules none c.σ) (hsf : c.σ.statefunc.isSome = true) :
+    StepB idle cfg.rules (afterCleanup cfg P c) := by
+  unfold afterCleanup
+  split
+  · exact h
+  · rename_i s _
+    obtain ⟨h1, e1⟩ := bi_newState cfg hs hr P hP (some s) h (fun _ => Or.inl hsf) (fun hh => by cases hh)
+    exact ⟨h1, by rw [e1]; rfl⟩
+
+theorem stepB_callState (cfg : Cfg) (hs : cfg.hasStates = true) (hr : BusyRules cfg.rules) (P : Prog)
+    (hP : BusyProg cfg.rules P) {σ : SM} (s : Sid) (h : BI idle cfg.rules none σ) (hsf : σ.statefunc = some s) :
+    StepB idle cfg.rules (callState cfg P σ s) := by
+  have h1 : BI idle cfg.rules none (σ.log (.call s σ.init)) := bi_neutral (e := .call s σ.init) rfl rfl rfl rfl rfl rfl h
+  obtain ⟨h2, e2⟩ := bi_applyOutcome cfg hs hr (P.state (σ.log (.call s σ.init)).trace s) h1 (hP.state _ s)
+    (by show σ.statefunc.isSome = true; simp [hsf])
+  unfold callState
+  simp only
+  generalize P.state (σ.log (.call s σ.init)).trace s = o at h2 e2 ⊢
+  generalize applyOutcome cfg (σ.log (.call s σ.init)) o = σ2 at h2 e2 ⊢
+  have hsf2 : σ2.statefunc.isSome = true := by rw [e2]; show σ.statefunc.isSome = true; simp [hsf]
+  have h3 : BI idle cfg.rules none (clearInit σ2) := bi_congr (σ := σ2) rfl rfl rfl rfl rfl h2
+  cases o.ret with
+  | retry => exact h3
+  | finish => exact h3
+  | next s' =>
+    obtain ⟨h4, e4⟩ := bi_newState cfg hs hr P hP (some s') h3 (fun _ => Or.inl hsf2) (fun hh => by cases hh)
+    exact ⟨h4, by rw [e4]; rfl⟩
+  | bad =>
+    obtain ⟨h4, e4⟩ := bi_doCleanup cfg hs hr P hP .error h3 hsf2
+    exact stepB_afterCleanup cfg hs hr P hP _ h4 (by rw [e4]; exact hsf2)
+  | raise =>
+    obtain ⟨h4, e4⟩ := bi_doCleanup cfg hs hr P hP .error h2 hsf2
+    exact stepB_afterCleanup cfg hs hr P hP _ h4 (by rw [e4]; exact hsf2)
+
+theorem stepB_interruptArm (cfg : Cfg) (hs : cfg.hasStates = true) (hr : BusyRules cfg.rules) (P : Prog)
+    (hP : BusyProg cfg.rules P) {σ : SM} (h : BI idle cfg.rules none σ) (hsf : σ.statefunc.isSome = true) :
+    StepB idle cfg.rules (interruptArm cfg P σ) := by
+  obtain ⟨h1, e1⟩ := bi_absorb cfg hs hr P hP h
+  unfold interruptArm
+  simp only
+  generalize absorb cfg P σ = τ at h1 e1 ⊢
+  have hsf1 : τ.statefunc.isSome = true := by rw [e1]; exact hsf
+  split
+  · rename_i t _
+    obtain ⟨h2, e2⟩ := bi_doCleanup cfg hs hr P hP (kindOf t) h1 hsf1
+    exact stepB_afterCleanup cfg hs hr P hP _ h2 (by rw [e2]; exact hsf1)
+  · exact h1
+
+theorem stepB_stepOnce (cfg : Cfg) (hs : cfg.hasStates = true) (hr : BusyRules cfg.rules) (P : Prog)
+    (hP : BusyProg cfg.rules P) {σ : SM} (h : BI idle cfg.rules none σ) :
+    StepB idle cfg.rules (stepOnce cfg P σ) := by
+  obtain ⟨h1, _⟩ := bi_absorb cfg hs hr P hP h
+  unfold stepOnce
+  simp only
+  generalize absorb cfg P σ = τ at h1 ⊢
+  split
+  · exact h1
+  · rename_i s hsf
+    split
+    · exact stepB_interruptArm cfg hs hr P hP h1 (by simp [hsf])
+    · exact stepB_callState cfg hs hr P hP s h1 hsf
+
+def InnerB (idle : Status) (r : Rules) : Inner → Prop
+  | .ret τ => BI idle r none τ
+  | .brk τ => BI idle r none τ
+  | .exhausted τ => BI idle r none τ ∧ τ.statefunc.isSome = true
+
+theorem innerB_inner (cfg : Cfg) (hs : cfg.hasStates = true) (hr : BusyRules cfg.rules) (P : Prog)
+    (hP : BusyProg cfg.rules P) (n : Nat) {σ : SM} (h : BI idle cfg.rules none σ) (hsf : σ.statefunc.isSome = true) :
+    InnerB idle cfg.rules (inner cfg P n σ) := by
+  induction n generalizing σ with
+  | zero => exact ⟨h, hsf⟩
+  | succ n ih =>
+    have h1 := stepB_stepOnce cfg hs hr P hP h
+    unfold inner
+    split
+    · rename_i τ he; rw [he] at h1; exact h1
+    · rename_i τ he; rw [he] at h1; exact h1
+    · rename_i τ he; rw [he] at h1; exact ih h1.1 h1.2
+
+/-! ### picking up a task; the loops; `cycle` -/
+
+theorem startOf_isSome (nt : Option Req) : (startOf nt).isSome = isStartReq nt := by
+  cases nt with
+  | none => rfl
+  | some t => cases t <;> rfl
+
+theorem bi_takeTask (cfg : Cfg) (hs : cfg.hasStates = true) (hr : BusyRules cfg.rules) (P : Prog)
+    (hP : BusyProg cfg.rules P) {σ : SM} (h : BI idle cfg.rules none σ) :
+    BI idle cfg.rules none (takeTask cfg P σ) := by
+  unfold takeTask
+  cases hnt : σ.nextTask with
+  | none => exact h
+  | some t =>
+    simp only
+    have hg := h.good
+    have hp := h.pending
+    simp only [ob] at hp
+    have h1 : BI idle cfg.rules (startOf (some t)) (SM.log { σ with nextTask := none, reason := none } .take) := by
+      have hb := h.busy; have hf := h.final
+      simp only [eng, hnt] at hb hf
+      refine ⟨?_, ?_, ?_, ?_, ?_, ?_, ?_, ?_⟩ <;>
+        simp only [SM.log, ob, observe_snoc, Obs.step, always_snoc, eng, startOf_isSome]
+      · exact ⟨hg, by simp [okB, okBusy, okFinal]⟩
+      · exact h.cur
+      · rw [hp, hnt]
+      · exact h.requesting
+      · exact h.idle
+      · intro he; apply hb; simpa [isStartReq] using he
+      · intro he; apply hf; simpa [isStartReq] using he
+    generalize SM.log { σ with nextTask := none, reason := none } .take = σ1 at h1 ⊢
+    cases t with
+    | stop st => exact h1
+    | start s cl kw ovr =>
+      simp only [startOf] at h1 ⊢
+      obtain ⟨h2, e2⟩ := bi_newState cfg hs hr P hP (some s) h1 (fun _ => Or.inr rfl) (fun _ => rfl)
+      generalize newState cfg P σ1 (some s) = σ2 at h2 e2 ⊢
+      have hg2 := h2.good
+      have hb2 : isBusy cfg.rules σ2.status = true := h2.busy (by simp [eng])
+      refine ⟨?_, ?_, ?_, ?_, ?_, ?_, ?_, ?_⟩ <;>
+        simp only [SM.log, ob, observe_snoc, Obs.step, always_snoc, eng]
+      · exact ⟨hg2, by simp [okB, okBusy, okFinal]⟩
+      · exact h2.cur
+      · exact h2.pending
+      · exact h2.requesting
+      · exact h2.idle
+      · intro _; exact hb2
+      · intro he; simp [e2] at he
+
+theorem bi_pickup (cfg : Cfg) (hs : cfg.hasStates = true) (hr : BusyRules cfg.rules) (P : Prog)
+    (hP : BusyProg cfg.rules P) {σ : SM} (h : BI idle cfg.rules none σ) :
+    BI idle cfg.rules none (pickup cfg P σ) := by
+  obtain ⟨h1, _⟩ := bi_absorb cfg hs hr P hP h
+  unfold pickup
+  simp only
+  split
+  · exact bi_takeTask cfg hs hr P hP h1
+  · exact h1
+
+theorem bi_finishRun (cfg : Cfg) (hs : cfg.hasStates = true) (hr : BusyRules cfg.rules) (P : Prog)
+    (hP : BusyProg cfg.rules P) {σ : SM} (h : BI idle cfg.rules none σ) :
+    BI idle cfg.rules none (finishRun cfg P σ) :=
+  (bi_newState cfg hs hr P hP none h (fun hh => by cases hh) (fun hh => by cases hh)).1
+
+theorem bi_chainLimit (cfg : Cfg) (hs : cfg.hasStates = true) (hr : BusyRules cfg.rules) (P : Prog)
+    (hP : BusyProg cfg.rules P) {σ : SM} (h : BI idle cfg.rules none σ) (hsf : σ.statefunc.isSome = true) :
+    BI idle cfg.rules none (chainLimit cfg P σ) := by
+  obtain ⟨h1, e1⟩ := bi_doCleanup cfg hs hr P hP .error h hsf
+  unfold chainLimit
+  simp only
+  generalize doCleanup cfg P σ .error = c at h1 e1 ⊢
+  split
+  · rename_i s _
+    exact (bi_newState cfg hs hr P hP (some s) h1 (fun _ => Or.inl (by rw [e1]; exact hsf)) (fun hh => by cases hh)).1
+  · exact bi_pickup cfg hs hr P hP (bi_finishRun cfg hs hr P hP h1)
+
+theorem bi_outerBody (cfg : Cfg) (hs : cfg.hasStates = true) (hr : BusyRules cfg.rules) (P : Prog)
+    (hP : BusyProg cfg.rules P) {σ : SM} (h : BI idle cfg.rules none σ) :
+    BI idle cfg.rules none (outerBody cfg P σ).sm := by
+  unfold outerBody
+  split
+  · exact bi_pickup cfg hs hr P hP h
+  · rename_i s hsf
+    have h1 := innerB_inner cfg hs hr P hP cfg.maxloops h (by simp [hsf])
+    revert h1
+    generalize inner cfg P cfg.maxloops σ = c
+    intro h1
+    cases c with
+    | ret τ => exact h1
+    | brk τ => exact bi_pickup cfg hs hr P hP (bi_finishRun cfg hs hr P hP h1)
+    | exhausted τ => exact bi_chainLimit cfg hs hr P hP h1.1 h1.2
+
+theorem bi_outer (cfg : Cfg) (hs : cfg.hasStates = true) (hr : BusyRules cfg.rules) (P : Prog)
+    (hP : BusyProg cfg.rules P) (n : Nat) {σ : SM} (h : BI idle cfg.rules none σ) :
+    BI idle cfg.rules none (outer cfg P n σ) := by
+  induction n generalizing σ with
+  | zero => exact h
+  | succ n ih =>
+    have h1 := bi_outerBody cfg hs hr P hP h
+    unfold outer
+    split
+    · rename_i τ he; rw [he] at h1; exact h1
+    · rename_i τ he; rw [he] at h1; exact ih h1
+
+theorem bi_cycleMachine (cfg : Cfg) (hs : cfg.hasStates = true) (hr : BusyRules cfg.rules) (P : Prog)
+    (hP : BusyProg cfg.rules P) {σ : SM} (h : BI idle cfg.rules none σ) :
+    BI idle cfg.rules none (cycleMachine cfg P σ) := by
+  have h1 : BI idle cfg.rules none (σ.log .cycleBegin) := bi_neutral (e := .cycleBegin) rfl rfl rfl rfl rfl rfl h
+  have h2 := bi_outer cfg hs hr P hP 2 h1
+  unfold cycleMachine cycle endCycle
+  simp only [hs, if_true]
+  generalize outer cfg P 2 (σ.log .cycleBegin) = τ at h2 ⊢
+  have h3 : BI idle cfg.rules none (τ.log (.cycleEnd τ.statefunc.isSome τ.nextTask.isSome)) :=
+    bi_neutral (e := .cycleEnd _ _) rfl rfl rfl rfl rfl rfl h2
+  generalize τ.log (.cycleEnd τ.statefunc.isSome τ.nextTask.isSome) = υ at h3 ⊢
+  have hg := h3.good
+  have c1 := h3.cur; have c2 := h3.pending; have c3 := h3.taken; have c4 := h3.requesting; have c5 := h3.idle
+  simp only [ob] at c1 c2 c3 c4 c5
+  have hb := h3.busy; have hf := h3.final
+  simp only [eng] at hb hf
+  refine ⟨?_, ?_, ?_, ?_, ?_, ?_, ?_, ?_⟩ <;>
+    simp only [SM.log, ob, observe_snoc, Obs.step, always_snoc, eng]
+  · refine ⟨hg, ?_⟩
+    simp only [okB, okBusy, okFinal, Obs.engaged, c1, c2, c3, c4, c5, Nat.lt_irrefl, if_false]
+    cases he : (υ.statefunc.isSome || isStartReq υ.nextTask || (none : Option Req).isSome) with
+    | true => simp [hb he]
+    | false => simp [hf he]
+  · exact h3.cur
+  · exact h3.pending
+  · exact h3.taken
+  · exact h3.requesting
+  · exact h3.idle
+  · exact hb
+  · exact hf
+
+theorem bi_initial (idle : Status) (r : Rules) : BI idle r none (SM.initial idle) := by
+  refine ⟨always_nil _ _, rfl, rfl, rfl, rfl, rfl, ?_, ?_⟩
+  · intro he; simp [eng, SM.initial, isStartReq] at he
+  · intro _; rfl
+
+/-- the requests of an operation sequence keep to busy status codes -/
+def BusyOps (r : Rules) (ops : List Op) : Prop := ∀ q, Op.req q ∈ ops → busyReq r q
+
+theorem bi_run (cfg : Cfg) (hs : cfg.hasStates = true) (hr : BusyRules cfg.rules) (P : Prog)
+    (hP : BusyProg cfg.rules P) (ops : List Op) (ho : BusyOps cfg.rules ops) {σ : SM} (h : BI idle cfg.rules none σ) :
+    BI idle cfg.rules none (run cfg P σ ops) := by
+  unfold run
+  induction ops generalizing σ with
+  | nil => exact h
+  | cons op ops ih =>
+    simp only [List.foldl_cons]
+    apply ih (fun q hq => ho q (by simp [hq]))
+    cases op with
+    | cycle => exact bi_cycleMachine cfg hs hr P hP h
+    | req q => exact (bi_request cfg hs hr h q (ho q (by simp))).1
+
+/-- every status report in a history of the model satisfies both conditions of the busy clause -/
+theorem run_busy (cfg : Cfg) (hs : cfg.hasStates = true) (hr : BusyRules cfg.rules) (P : Prog)
+    (hP : BusyProg cfg.rules P) (idle : Status) (ops : List Op) (ho : BusyOps cfg.rules ops) :
+    Always idle (okB cfg.rules) (run cfg P (SM.initial idle) ops).trace :=
+  (bi_run cfg hs hr P hP ops ho (bi_initial idle cfg.rules)).good
+
 end Frappy.SM
